@@ -1,4 +1,5 @@
 import RtcVerif.Model.C12
+import RtcVerif.Model.C12Io
 /-! Line-protocol driver for the C12 models (time axis, set_timeseries alignment, export stamps). -/
 open Lean RtcVerif RtcVerif.Wire RtcVerif.C12
 
@@ -46,6 +47,38 @@ def runOps (ts : List Int) : Store → List Json → List Json → Option (List 
         | some st' => runOps ts st' os (xvalsJ x :: acc)
     | _ => none
 
+
+/-! accessor slices (Model/C12Io.lean) -/
+def serJ (s : Ser) : Json := Json.mkObj [("times", intsJ s.1), ("values", xvalsJ s.2)]
+def optSerJ : Option Ser → Json
+  | none => Json.null
+  | some s => serJ s
+def inheritedJ : Json := Json.str "inherited"
+
+def parseStore (j : Json) (k : String) : Option Store := do
+  let init ← getArr j k
+  init.mapM (fun s => do
+    let l ← (match s with | Json.arr a => some a.toList | _ => none)
+    l.mapM (fun p => match p with
+      | Json.arr #[k, x] => do
+          let k ← (fromJson? k : Except String Nat).toOption
+          let x ← asXValList x
+          pure (k, x)
+      | _ => none))
+
+/-- the getter of one model variable: ids of the series `v`, `v_Min`, `v_Max` -/
+def getterOf (st : Store) (iv imin imax : Nat) : Getter :=
+  fun m k => ioGetRef st m (match k with | Key.var => iv | Key.min => imin | Key.max => imax)
+
+def parsePairs (j : Json) (k : String) : Option (List (Nat × Rat)) := do
+  let l ← getArr j k
+  l.mapM (fun p => match p with
+    | Json.arr #[a, b] => do
+        let a ← (fromJson? a : Except String Nat).toOption
+        let b ← asRat b
+        pure (a, b)
+    | _ => none)
+
 def handle (j : Json) : Option Json := do
   let op ← getStr j "op"
   match op with
@@ -84,6 +117,57 @@ def handle (j : Json) : Option Json := do
           | _ => none))
       let r ← runOps ts st ops []
       pure (Json.arr r.toArray)
+  | "slices" =>
+      -- every accessor entry of one variable for one member, on one final store
+      let ts ← getIntList j "ts"
+      let st ← parseStore j "store"
+      let iv ← getNat j "iv"
+      let imin ← getNat j "imin"
+      let imax ← getNat j "imax"
+      let m ← getNat j "m"
+      let big ← getRat j "big"
+      let get := getterOf st iv imin imax
+      let b := match (boundsEntry ts get big (none : Option Unit)) with
+        | Entry.inherited _ => inheritedJ
+        | Entry.io (lo, hi) => Json.mkObj [("m", optSerJ lo), ("M", optSerJ hi)]
+      let h := match (historyEntry ts get m (none : Option Unit)) with
+        | Entry.inherited _ => inheritedJ
+        | Entry.io s => serJ s
+      let sd := match (seedEntry ts get m (none : Option Unit)) with
+        | Entry.inherited _ => inheritedJ
+        | Entry.io s => serJ s
+      let ci := match (constInputEntry ts get m (none : Option Unit)) with
+        | none => raiseJ
+        | some (Entry.inherited _) => inheritedJ
+        | some (Entry.io s) => serJ s
+      pure (Json.mkObj [("bounds", b), ("history", h), ("seed", sd), ("cinput", ci),
+        ("store_min", match get 0 Key.min with | none => Json.null | some v => xvalsJ (boundsStoreAfter ts v true big)),
+        ("store_max", match get 0 Key.max with | none => Json.null | some v => xvalsJ (boundsStoreAfter ts v false big))])
+  | "params" =>
+      let parent ← parsePairs j "parent"
+      let io ← parsePairs j "io"
+      pure (Json.arr ((parametersMerge parent io).map (fun p => Json.arr #[intJ p.1, ratJ p.2])).toArray)
+  | "sim" =>
+      let ts ← getIntList j "ts"
+      let dts ← getIntList j "dts"
+      let feeds := ((getArr j "feeds").getD []).filterMap asXValList
+      match simRun ts dts with
+      | none => pure raiseJ
+      | some s => pure (Json.mkObj [("stamps", intsJ s.stamps), ("recorded", intsJ s.recorded),
+          ("fed", Json.arr (s.fed.map (fun p => intJ p.1)).toArray),
+          ("fed_time", intsJ (s.fed.map Prod.snd)),
+          ("fed_values", Json.arr (feeds.map (fun vals => Json.arr (s.fed.map (fun p =>
+              match feedValue vals p.1 with
+              | none => raiseJ
+              | some none => Json.str "skip"
+              | some (some x) => XVal.toJson x)).toArray)).toArray)])
+  | "feed" =>
+      let v ← getXValList j "values"
+      let i ← getNat j "idx"
+      match feedValue v i with
+      | none => pure raiseJ
+      | some none => pure (Json.str "skip")
+      | some (some x) => pure (XVal.toJson x)
   | _ => none
 
 def main : IO Unit := runDriver handle
